@@ -813,11 +813,12 @@ def main(rep, ws, tier):
             try:
                 d = m['d']; ns = 3 if d == 4 else 2; nh = 3 if d == 4 else 1
                 outs_ = [S.out('a0', 0, 1, 'i8')] + [S.out('a1', i * sz, sz, lt) for i in range(d * d)] + [S.out('a2', i * sz, sz, lt) for i in range(ns)] + [S.out('a3', i * sz, sz, lt) for i in range(nh)]
-                dens = {}; guards = set(); seen_ = set(); st_ = list(outs_)
+                dens = {}; guards = set(); seen_ = set(); st_ = list(outs_); recip = None
                 while st_:
                     x = st_.pop()
                     if x.id in seen_: continue
                     seen_.add(x.id); st_.extend(x.args)
+                    if x.op == 'fdiv' and x.args[1].op != 'const' and x.args[0].op == 'const' and recip is None: recip = x
                     if x.op == 'fdiv' and x.args[1].op != 'const':
                         num = x.args[0]
                         isabs = num.op == 'absi' or (num.op == 'call' and 'fabs' in str(num.attr))
@@ -826,6 +827,11 @@ def main(rep, ws, tier):
                         guards.add(x.args[0].args[0].id)
                 unguarded = [v for k_, v in dens.items() if k_ not in guards]
                 need = 4 if d == 4 else 3
+                if recip is not None:
+                    # the zero-scale test bounds the quotients row_i / scl it was written for; a reciprocal 1 / scl is a different
+                    # quotient, which overflows for every scl below 1/max (a subnormal largest entry) whatever the rows are
+                    rep.ob(oid, 'R12.zero', VIOLATED, 'the rows are multiplied by the reciprocal %s instead of being divided: checkForZeroScaleInRow bounds row_i / scl, not 1 / scl, which overflows to infinity when the divisor is below 1/max (matrices with subnormal entries decompose into inf / NaN and report success)' % T.show(recip, 3)[:120], fn_where(S.fn))
+                    continue
                 if len(dens) < need:
                     rep.ob(oid, 'R12.zero', UNDECIDED, 'only %d divisor values recognised (expected maxVal and %d scale factors)' % (len(dens), need - 1), fn_where(S.fn))
                 else:
